@@ -11,8 +11,10 @@ import (
 	"os"
 	"runtime"
 	"runtime/debug"
+	"runtime/pprof"
 	"sort"
 	"strings"
+	"sync/atomic"
 	"testing"
 	"testing/synctest"
 	"time"
@@ -186,6 +188,9 @@ func (x *Exec) Bubble(f func(w *World)) {
 					w.Close()
 				}()
 				x.absorb(w)
+				if os.Getenv("VERIF_STACKS") != "" {
+					pprof.Lookup("goroutine").WriteTo(os.Stderr, 2)
+				}
 			}()
 			f(w)
 			w.CheckPanics()
@@ -196,7 +201,17 @@ func (x *Exec) Bubble(f func(w *World)) {
 func (x *Exec) absorb(w *World) {
 	if os.Getenv("VERIF_TRACE") != "" {
 		for _, e := range w.S.Log {
-			fmt.Fprintln(os.Stderr, "  ", e.String())
+			extra := ""
+			if i := strings.Index(e.Key, "/root/"); i >= 0 && e.Op == OpPut {
+				for _, mu := range w.S.Mut {
+					if mu.Seq == e.Seq {
+						if r, err := DecodeRoot("", mu.Body); err == nil && r.Created != nil {
+							extra = fmt.Sprintf(" created=%s parents=%v size=%d", FmtTime(*r.Created), r.Parents, r.Size)
+						}
+					}
+				}
+			}
+			fmt.Fprintln(os.Stderr, "  ", e.String()+extra, time.Duration(e.SimNs))
 		}
 	}
 	x.hash.WriteString(LogHash(w.S.Log))
@@ -215,7 +230,17 @@ func (x *Exec) absorb(w *World) {
 	if w.Viol != nil && x.viol == nil {
 		x.viol = w.Viol
 	}
+	if n := atomic.LoadInt32(&w.StaleCacheServed); n > 0 {
+		x.Res.Probes["stale-cached-node-served"] += int(n)
+		if x.viol != nil && !strings.HasSuffix(x.viol.Class, staleSuffix) {
+			x.viol.Class += staleSuffix
+		}
+	}
 }
+
+// staleSuffix marks a violation of a run in which mast's node cache served a
+// node that had been modified after it was cached (open finding KF-14).
+const staleSuffix = "-after-stale-cached-node"
 
 // gcBarrier forces finalizers of everything a run dropped to run now, so that
 // a finalizer panic (kv.Open's "dirty tree" check) is attributed to this run.
